@@ -7,11 +7,11 @@ EXTENDS Naturals, Sequences, FiniteSets, TLC, TraceIO, SequencesExt
 CONSTANTS Alpha2, Alpha3, Stride, Sweep, All2
 
 Kinds == <<"h264", "h264_avc", "h265", "h265_donl", "vp8", "vp9", "av1", "av1_legacy", "opus",
-           "h265_single", "h265_single_donl", "h265_fu", "h265_fu_donl", "h265_ap", "h265_ap_donl", "h265_paci">>
+           "h265_single", "h265_single_donl", "h265_fu", "h265_fu_donl", "h265_ap", "h265_ap_donl", "h265_paci", "h265_toggle">>
 Warm(k) ==
   CASE k = "vp8" -> <<144, 240, 129, 35, 69, 231, 1, 2, 3>>
     [] k = "vp9" -> <<255, 129, 35, 53, 3, 4, 56, 2, 128, 1, 224, 1, 64, 0, 240, 2, 52, 1, 88, 2, 3, 9, 9, 9>>
-    [] k \in {"h265", "h265_donl", "h265_ap", "h265_ap_donl"} -> <<96, 1, 0, 7, 0, 3, 64, 1, 5, 0, 0, 3, 66, 1, 6>>   \* aggregation packet
+    [] k \in {"h265", "h265_donl", "h265_toggle", "h265_ap", "h265_ap_donl"} -> <<96, 1, 0, 7, 0, 3, 64, 1, 5, 0, 0, 3, 66, 1, 6>>   \* aggregation packet
     [] k \in {"h265_fu", "h265_fu_donl"} -> <<98, 1, 147, 0, 7, 1, 2, 3>>
     [] k = "h265_paci" -> <<100, 1, 130, 56, 1, 2, 3, 38, 1, 9>>
     [] k \in {"h264", "h264_avc"} -> <<124, 133, 1, 2, 3>>                                   \* FU-A start
@@ -30,7 +30,7 @@ BytesCases(ki) ==
 
 \* well-formed payloads of different forms; every ordered pair is decoded by one receiver
 Forms(k) ==
-  CASE k \in {"h265", "h265_donl"} -> << <<96, 1, 0, 7, 0, 3, 64, 1, 5, 0, 0, 3, 66, 1, 6>>,      \* aggregation packet
+  CASE k \in {"h265", "h265_donl", "h265_toggle"} -> << <<96, 1, 0, 7, 0, 3, 64, 1, 5, 0, 0, 3, 66, 1, 6>>,      \* aggregation packet
                                         <<98, 1, 147, 0, 7, 1, 2, 3>>,                              \* FU start
                                         <<98, 1, 19, 9, 8, 7>>,                                     \* FU middle
                                         <<100, 1, 130, 56, 170, 187, 204, 38, 1, 9>>,               \* PACI with a 3-byte PHES (TSCI)
@@ -50,7 +50,7 @@ PairCases(ki) ==
       class |-> k \o "_wellformed_pairs"]]
 PayloadersFor(k) ==
   CASE k \in {"h264", "h264_avc"} -> <<"h264", "h264_nostap">>
-    [] k \in {"h265", "h265_single", "h265_fu", "h265_ap", "h265_paci"} -> <<"h265", "h265_skipagg">>
+    [] k \in {"h265", "h265_toggle", "h265_single", "h265_fu", "h265_ap", "h265_paci"} -> <<"h265", "h265_skipagg">>
     [] k \in {"h265_donl", "h265_single_donl", "h265_fu_donl", "h265_ap_donl"} -> <<"h265_donl", "h265_donl_skipagg">>
     [] k = "vp8" -> <<"vp8", "vp8pid">>
     [] k = "vp9" -> <<"vp9", "vp9_flex">>
@@ -58,7 +58,7 @@ PayloadersFor(k) ==
     [] OTHER -> <<"opus">>
 ShapesFor(k) ==
   CASE k \in {"h264", "h264_avc"} -> <<"annexb3", "annexb_mixed", "h264_slice">>
-    [] k \in {"h265", "h265_donl", "h265_single", "h265_single_donl", "h265_fu", "h265_fu_donl", "h265_ap", "h265_ap_donl", "h265_paci"} -> <<"h265nals", "annexb4">>
+    [] k \in {"h265", "h265_donl", "h265_toggle", "h265_single", "h265_single_donl", "h265_fu", "h265_fu_donl", "h265_ap", "h265_ap_donl", "h265_paci"} -> <<"h265nals", "annexb4">>
     [] k = "vp9" -> <<"vp9_key", "vp9_inter", "pat">>
     [] k \in {"av1", "av1_legacy"} -> <<"obu", "obu_ext", "obu_nosize_last">>
     [] OTHER -> <<"pat">>
